@@ -922,7 +922,7 @@ def main():
     tier = sys.argv[1] if len(sys.argv) > 1 else 'quick'
     seed = int(sys.argv[2]) if len(sys.argv) > 2 else 0
     t0 = time.time()
-    tmpdir = tempfile.mkdtemp(prefix='pytough-', dir='/var/tmp')
+    tmpdir = tempfile.mkdtemp(prefix='pytough-', dir=os.environ.get('PYTOUGH_SCRATCH', '/var/tmp'))
     try:
         nrect = 72 * 9 if tier == 'quick' else 72 * 360
         chunk = 18 if tier == 'quick' else 120
